@@ -406,6 +406,16 @@ func genWorld(r *simkit.RNG, sc *Scenario, k *gknobs) {
 				tw.Files = append(append([]PFile{}, clean...), PFile{Path: "shared.txt", Kind: "link", Target: "/w/victim"})
 			}
 		}
+		if rr := simkit.NewRNG(sc.Seed, "bw/twin-rodir"); rr.Chance(1, 4) {
+			// both twins hold a read-only directory with a file in it: whoever comes second has
+			// to discard its own copy, which an unprivileged user cannot do
+			src := &sc.Pkgs[a]
+			if !hasPath(src.Files, "ro") {
+				for _, t := range []*Pkg{src, tw} {
+					t.Files = append(t.Files, PFile{Path: "ro", Kind: "dir", Mode: 0o555}, PFile{Path: "ro/f.txt", Kind: "file", Body: "RO;", Mode: 0o444})
+				}
+			}
+		}
 		if tr := simkit.NewRNG(sc.Seed, "bw/twin-spelling"); tr.Chance(1, 4) {
 			// a file name spelled composed in one package and decomposed in the other: two
 			// different paths (on a file system that keeps them apart, as this one does)
